@@ -854,6 +854,59 @@ def input_aliasing_checks():
                             violated=f'size {rs.size}, {[len(c) for c in out]} rows returned, expected 0'))
     except Exception as e:
         bad.append(dict(script=dict(text='reused / stateful / empty combinators'), clause='reuse', call=0, violated=f'{type(e).__name__}: {e}'))
+    # one generator OBJECT in two positions of a combinator: every position gets a draw of its own, in order
+    try:
+        class Counter(G.BaseGenerator):
+            def __init__(self, size=3):
+                super().__init__()
+                self.size, self.k = size, 0
+
+            def get_examples(self):
+                self.k += 1
+                return torch.arange(self.size, dtype=torch.float64) + 100.0 * self.k
+        c_ = Counter()
+        out = flat((c_ * c_).get_examples())
+        if out != [[100.0, 101.0, 102.0], [200.0, 201.0, 202.0]]:
+            bad.append(dict(script=dict(text='g * g with one generator object'), clause='ensemble', call=0, violated=f'positions do not get successive draws: {out}'))
+        c_, d_ = Counter(), Counter()
+        out = flat(G.EnsembleGenerator(c_, d_, c_).get_examples())
+        if out != [[100.0, 101.0, 102.0], [100.0, 101.0, 102.0], [200.0, 201.0, 202.0]]:
+            bad.append(dict(script=dict(text='EnsembleGenerator(c, d, c)'), clause='ensemble', call=0, violated=f'positions do not get successive draws: {out}'))
+        c_ = Counter(2)
+        out = flat((c_ ^ c_).get_examples())
+        if out != [[100.0, 100.0, 101.0, 101.0], [200.0, 201.0, 200.0, 201.0]]:
+            bad.append(dict(script=dict(text='g ^ g with one generator object'), clause='mesh', call=0, violated=f'axes do not get successive draws: {out}'))
+        # an axis that refills ITS OWN buffer and hands the same tensor object back: every mesh draw shows the axis as it is then
+        class Refill(G.BaseGenerator):
+            def __init__(self):
+                super().__init__()
+                self.size, self.k, self.buf = 2, 0, torch.zeros(2, dtype=torch.float64)
+
+            def get_examples(self):
+                self.k += 1
+                self.buf.copy_(torch.tensor([10.0 * self.k, 10.0 * self.k + 1]))
+                return self.buf
+        fixed = G.Generator1D(2, 0.0, 1.0, method='equally-spaced')
+        mg = Refill() ^ fixed
+        outs = [flat(mg.get_examples()) for _ in range(3)]
+        want = [[[10.0 * k, 10.0 * k, 10.0 * k + 1, 10.0 * k + 1], [0.0, 1.0, 0.0, 1.0]] for k in (1, 2, 3)]
+        if outs != want:
+            bad.append(dict(script=dict(text='mesh of an axis that refills its own buffer in place and a fixed axis'), clause='mesh', call=1,
+                            violated=f'draws {outs} expected {want}'))
+        # transform: the maps given at construction are the maps applied, on every draw
+        maps = [lambda x: x * 2.0, None]
+        tg = G.TransformGenerator(G.Generator2D((2, 2), (0., 0.), (1., 1.), method='equally-spaced'), transforms=maps)
+        first = flat(tg.get_examples())
+        maps[0] = lambda x: x * 0.0 - 7.0
+        maps[1] = lambda x: x + 100.0
+        again = flat(tg.get_examples())
+        lazy = G.TransformGenerator(G.Generator2D((2, 2), (0., 0.), (1., 1.), method='equally-spaced'), transforms=(f for f in (lambda x: x * 2.0, None)))
+        l1, l2 = flat(lazy.get_examples()), flat(lazy.get_examples())
+        if again != first or l1 != first or l2 != first or len(l2) != 2:
+            bad.append(dict(script=dict(text='TransformGenerator whose list of maps is edited by the caller afterwards / given as a one-shot iterable'), clause='transform',
+                            call=1, violated=f'first {first}, after the edit {again}, iterable: {l1} then {l2}'))
+    except Exception as e:
+        bad.append(dict(script=dict(text='one generator object in two positions / refilled axis / edited maps'), clause='reuse', call=0, violated=f'{type(e).__name__}: {e}'))
     # sub-generators of different precision: every sample comes back with the value the sub-generator produced
     try:
         lo = G.PredefinedGenerator(torch.tensor([0.5, 1.5], dtype=torch.float32), torch.tensor([2.5, 3.5], dtype=torch.float32))
